@@ -129,10 +129,48 @@ def check_hier(name, X, wname, w, cap, normalize, tm):
     return None
 
 
+def check_refit():
+    """one model instance fitted several times (as the sampler does on its cadence): after every fit, predict / labels refer to the
+    model just fitted — K, label range, training labels — whatever was fitted before"""
+    r = np.random.RandomState(12)
+    blobs4 = np.vstack([c + 0.05 * r.standard_normal((120, 2)) for c in ([0, 0], [4, 0], [0, 4], [4, 4])])
+    blobs2 = np.vstack([c + 0.05 * r.standard_normal((200, 2)) for c in ([0, 0], [4, 4])])
+    one = 0.3 * r.standard_normal((300, 2))
+    for normalize in (False, True):
+        h = HierarchicalGaussianMixture(normalize=normalize)
+        for k, X in enumerate((blobs4, blobs2, one, blobs4)):
+            try:
+                h.fit(X, np.ones(len(X)))
+                K = h.n_clusters_
+                Q = np.vstack([X, X.mean(axis=0) + 30.0, X.min(axis=0) - 7.0])
+                lab = h.predict(Q)
+            except Exception as e:
+                return f"fit #{k + 1} of a reused model (normalize={normalize}) raised {type(e).__name__}: {e}"
+            if lab.min() < 0 or lab.max() >= K:
+                return (f"fit #{k + 1} of a reused model (normalize={normalize}): predict returned label {int(lab.max())} with K={K} "
+                        f"(state of an earlier fit survived the refit)")
+            if h.labels_.shape != (len(X),) or h.labels_.min() < 0 or h.labels_.max() >= K:
+                return f"fit #{k + 1} of a reused model (normalize={normalize}): training labels outside [0,{K})"
+            if not np.array_equal(h.predict(X), np.asarray(h.labels_)) and K > 1 and np.mean(h.predict(X) == h.labels_) < 0.9:
+                return f"fit #{k + 1} of a reused model (normalize={normalize}): predict on the training points disagrees with the training labels"
+            try:
+                pp = h.predict_proba(Q)
+                if pp.shape != (len(Q), K):
+                    return f"fit #{k + 1} of a reused model (normalize={normalize}): predict_proba has shape {pp.shape}, K={K}"
+            except AttributeError:
+                pass
+    return None
+
+
 def main():
     p = json.load(open(sys.argv[1]))
     rng = np.random.RandomState(int(p.get("seed", 0)))
     tried = 0
+    e = check_refit()
+    tried += 1
+    if e:
+        print(json.dumps({"reproduced": True, "tried": tried, "detail": e, "input": {"case": "reused model instance"}}))
+        return
     e = check_mstep(rng)
     tried += 1
     if e:
